@@ -118,10 +118,25 @@ impl Property for C03 {
         }
         // integer pairs around the overflow boundaries, every run
         let ints = int_pool();
-        for op in ["+", "-", "*", "/", "%"] {
+        for op in ["+", "-", "*", "/", "%", "<", ">", "<=", ">=", "==", "!=", "^"] {
             for a in &ints {
                 for b in &ints {
                     cases.push(binop_case(op, &Value::Int(*a), &Value::Int(*b), "intpairs"));
+                }
+            }
+        }
+        // mixed int/float and float/float pairs for the orderings and the float-only operators
+        let floats = float_pool();
+        for op in ["<", ">=", "==", "^", "%", "/"] {
+            for a in &ints {
+                for f in &floats {
+                    cases.push(binop_case(op, &Value::Int(*a), &Value::Float(*f), "mixedpairs"));
+                    cases.push(binop_case(op, &Value::Float(*f), &Value::Int(*a), "mixedpairs"));
+                }
+            }
+            for f in &floats {
+                for g in &floats {
+                    cases.push(binop_case(op, &Value::Float(*f), &Value::Float(*g), "floatpairs"));
                 }
             }
         }
